@@ -11,8 +11,9 @@ package driver
 // until the device's 60 s read timeout], bad
 // handshake, handshake then dropped, closed normally by the device, established and staying)
 // X drop the established connection; T/t Stop (live / finished context); U<n>/u<n> UpdateAddr to
-// address n (live / finished context); F/G SDK update fails / works; Q/q TrySend(GetReaderConfig)
-// with the reader answering success / an error status.
+// address n (live / finished context); F/G SDK update fails / works; Q/q/Qe/Qw/Qg/Ql TrySend(GetReaderConfig)
+// with a connected reader answering success / an error status / ERROR_MESSAGE / another message type /
+// an undecodable payload / after the deadline.
 //
 // answer line: the observed history "d<n> hs fail norm stop a<n> rU+ rD- s<sendfor>/<class> ..."
 // followed by " | up=<isUp>"; irregularities appear as tokens starting with '!'.
@@ -226,6 +227,7 @@ type c15Query struct {
 }
 
 type c15Conn struct {
+	wmu      sync.Mutex
 	c        net.Conn
 	mode     byte
 	done     chan struct{} // closed when the reader side is finished with this connection
@@ -240,7 +242,7 @@ type c15Run struct {
 	queries chan c15Query
 	conns   chan net.Conn
 	sdkFail atomic.Bool
-	rejGRC  atomic.Bool
+	grcMode atomic.Int32 // how the reader answers GetReaderConfig (see serve)
 	errLogs atomic.Int64
 	stale   bool // a connection event went out on a connection the device closed at once
 	badVar  int
@@ -324,6 +326,12 @@ func c15Pace(hint func() bool, fallback time.Duration) {
 	time.Sleep(3 * time.Millisecond)
 }
 
+func (cn *c15Conn) write(b []byte) (int, error) {
+	cn.wmu.Lock()
+	defer cn.wmu.Unlock()
+	return cn.c.Write(b)
+}
+
 // serve one accepted connection according to mode
 func (r *c15Run) serve(cn *c15Conn, wantSRC int) {
 	defer close(cn.done)
@@ -354,11 +362,11 @@ func (r *c15Run) serve(cn *c15Conn, wantSRC int) {
 		r.logf("fail")
 		switch r.badVar % 3 {
 		case 0:
-			c.Write(c15Frame(c15MsgKeepAlive, 1, nil))
+			cn.write(c15Frame(c15MsgKeepAlive, 1, nil))
 		case 1:
-			c.Write(c15Frame(c15MsgReaderEventNotification, 1, c15ConnEvent(1, 1600000000000000)))
+			cn.write(c15Frame(c15MsgReaderEventNotification, 1, c15ConnEvent(1, 1600000000000000)))
 		case 2:
-			c.Write(c15Frame(c15MsgROAccessReport, 1, nil))
+			cn.write(c15Frame(c15MsgROAccessReport, 1, nil))
 		}
 		r.badVar++
 		c.SetReadDeadline(time.Now().Add(2 * time.Second))
@@ -368,7 +376,7 @@ func (r *c15Run) serve(cn *c15Conn, wantSRC int) {
 	}
 	// good handshake
 	r.logf("hs")
-	if _, err := c.Write(c15Frame(c15MsgReaderEventNotification, 1, c15ConnEvent(0, 1600000000000000))); err != nil {
+	if _, err := cn.write(c15Frame(c15MsgReaderEventNotification, 1, c15ConnEvent(0, 1600000000000000))); err != nil {
 		r.logf("!write")
 		signal("dropped")
 		return
@@ -397,14 +405,14 @@ func (r *c15Run) serve(cn *c15Conn, wantSRC int) {
 		}
 		switch typ {
 		case c15MsgGetSupportedVersion:
-			c.Write(c15Frame(c15MsgGetSupportedVersionResp, id, append([]byte{2 << 5, 2 << 5}, c15Status(0)...)))
+			cn.write(c15Frame(c15MsgGetSupportedVersionResp, id, append([]byte{2 << 5, 2 << 5}, c15Status(0)...)))
 		case c15MsgSetReaderConfig:
 			srcs++
 			if cn.mode == 'C' {
-				c.Write(c15Frame(c15MsgSetReaderConfigResp, id, c15Status(100)))
+				cn.write(c15Frame(c15MsgSetReaderConfigResp, id, c15Status(100)))
 				break
 			}
-			c.Write(c15Frame(c15MsgSetReaderConfigResp, id, c15Status(0)))
+			cn.write(c15Frame(c15MsgSetReaderConfigResp, id, c15Status(0)))
 			if srcs == wantSRC {
 				if cn.mode == 'H' {
 					time.Sleep(20 * time.Millisecond)
@@ -418,23 +426,35 @@ func (r *c15Run) serve(cn *c15Conn, wantSRC int) {
 				signal("src")
 			}
 		case c15MsgGetReaderConfig:
-			if r.rejGRC.Load() {
-				c.Write(c15Frame(c15MsgGetReaderConfigResp, id, c15Status(100)))
-			} else {
-				c.Write(c15Frame(c15MsgGetReaderConfigResp, id, c15Status(0)))
+			switch r.grcMode.Load() {
+			case 'q': // non-success status
+				cn.write(c15Frame(c15MsgGetReaderConfigResp, id, c15Status(100)))
+			case 'e': // ERROR_MESSAGE
+				cn.write(c15Frame(c15MsgErrorMessage, id, c15Status(100)))
+			case 'w': // a reply of another type
+				cn.write(c15Frame(11, id, c15Status(0)))
+			case 'g': // right type, payload the decoder rejects (LLRPStatus says 64 bytes)
+				cn.write(c15Frame(c15MsgGetReaderConfigResp, id, []byte{0x01, 0x1F, 0x00, 0x40, 0, 0, 0, 0}))
+			case 'l': // after the caller's deadline
+				go func(id uint32) {
+					time.Sleep(520 * time.Millisecond)
+					cn.write(c15Frame(c15MsgGetReaderConfigResp, id, c15Status(0)))
+				}(id)
+			default:
+				cn.write(c15Frame(c15MsgGetReaderConfigResp, id, c15Status(0)))
 			}
 		case c15MsgCloseConnection:
 			// a reader answers and then closes the connection (the client waits for that)
 			r.logf("norm")
 			closing = true
-			c.Write(c15Frame(c15MsgCloseConnectionResponse, id, c15Status(0)))
+			cn.write(c15Frame(c15MsgCloseConnectionResponse, id, c15Status(0)))
 			time.Sleep(2 * time.Millisecond)
 			c.Close()
 			signal("closed")
 			return
 		case c15MsgKeepAliveAck:
 		default:
-			c.Write(c15Frame(c15MsgErrorMessage, id, c15Status(109)))
+			cn.write(c15Frame(c15MsgErrorMessage, id, c15Status(109)))
 		}
 	}
 }
@@ -565,7 +585,7 @@ func c15RunScript(id string, up0 bool, toks []string) string {
 			case <-cur.done:
 				ended = true
 			case <-time.After(100 * time.Millisecond):
-				cur.c.Write(c15Frame(c15MsgKeepAlive, 77, nil))
+				cur.write(c15Frame(c15MsgKeepAlive, 77, nil))
 			}
 		}
 		if !ended {
@@ -702,13 +722,26 @@ func c15RunScript(id string, up0 bool, toks []string) string {
 			r.sdkFail.Store(true)
 		case tok == "G":
 			r.sdkFail.Store(false)
-		case tok == "Q" || tok == "q":
-			r.rejGRC.Store(tok == "q")
+		case tok[0] == 'Q' || tok == "q":
+			mode := int32('Q')
+			if tok == "q" {
+				mode = 'q'
+			} else if len(tok) > 1 {
+				mode = int32(tok[1])
+			}
+			r.grcMode.Store(mode)
 			p := &c15Probe{}
 			ctx, cancel := context.WithTimeout(context.Background(), 400*time.Millisecond)
 			err := r.dev.TrySend(ctx, p, &llrp.GetReaderConfigResponse{})
 			cancel()
-			r.logf(fmt.Sprintf("s%d/%s", p.n.Load(), c15Class(err)))
+			cl := c15Class(err)
+			if cl == "noclient" && p.n.Load() > 0 {
+				cl = "other" // SendFor ran and failed with an error of no other class
+			}
+			r.logf(fmt.Sprintf("s%d/%s", p.n.Load(), cl))
+			if mode == 'l' && cur != nil {
+				time.Sleep(150 * time.Millisecond) // let the late reply pass before the next request
+			}
 		default:
 			r.logf("!badtoken:" + tok)
 		}
